@@ -10,7 +10,9 @@
 (*   EL   = {"st":"ok"|"noattrs"|"panic", "len":attributes().length(),     *)
 (*           "attrs":[{"n":name,"v":value,"st":"ok"|"err"|"panic",         *)
 (*                     "spec":"T"|"F"|"panic"}..],                         *)
-(*           "get":[{"n":name,"v":get_attribute(name),"st":"ok"|"panic"}]} *)
+(*           "get":[{"n":name,"v":get_attribute(name),"st":"ok"|"panic"}], *)
+(*           "xp":{"st":..,"count":<count of @* >,"str":[{"n","v":string(@n),*)
+(*                  "st"}..]}}      (xp: text-expanded view only)          *)
 (* Every event is judged against AttrNorm.tla: the expected effective      *)
 (* attributes are RE-COMPUTED from the abstract case (an `expect` field is *)
 (* never read).  The recorded text must be the specification's rendering   *)
@@ -41,11 +43,21 @@ ElementIs(o, want, ask) ==
   /\ \A i \in 1..Len(o.get) : o.get[i].st = "ok" /\ o.get[i].v = Lookup(want, o.get[i].n)
   /\ ask \subseteq Asked(o)
 
+\* the XPath data model of the same element (text-expanded view only, the way xq evaluates):
+\* count of all attributes and string(@name); defaulted attributes are attributes like the others
+XPathIs(o, want, ask) ==
+  /\ "xp" \in DOMAIN o
+  /\ o.xp.st = "ok"
+  /\ o.xp.count = Cardinality(want)
+  /\ \A i \in 1..Len(o.xp.str) : o.xp.str[i].st = "ok" /\ o.xp.str[i].v = Lookup(want, o.xp.str[i].n)
+  /\ ask \subseteq { o.xp.str[i].n : i \in 1..Len(o.xp.str) }
+
 \* W(doc, i) = the set of effective attributes demanded of element i
 ViewIs(doc, view, W(_, _)) ==
   /\ view.parse = "ok"
   /\ Len(view.els) = Len(doc.els)
   /\ \A i \in 1..Len(doc.els) : ElementIs(view.els[i], W(doc, i), AskNames(doc, i))
+  /\ (view.view = "exp" => \A i \in 1..Len(doc.els) : XPathIs(view.els[i], W(doc, i), AskNames(doc, i)))
 
 EventIs(e, W(_, _)) == \A k \in 1..Len(e.views) : ViewIs(DocOf(e), e.views[k], W)
 
@@ -56,7 +68,7 @@ Ideal(e) == Len(e.views) = 2 /\ EventIs(e, Expected)
 (* alternative definition of the effective attributes that applies under   *)
 (* an exact condition.  An event that is not ideal gets the name of the    *)
 (* entry whose as-is model reproduces the whole observation (both views,   *)
-(* every element, values, specified flags, length, get_attribute); a       *)
+(* every element, values, specified flags, length, get_attribute, XPath); a*)
 (* different wrong answer matches nothing and is a VIOLATION.              *)
 (*                                                                         *)
 (* "required-attribute-materialized": XmlElement::attributes() adds an     *)
@@ -96,8 +108,10 @@ Why(e) ==
   IN IF v.parse # "ok" THEN [view |-> v.view, what |-> "parse", got |-> v.parse]
      ELSE IF Len(v.els) # Len(doc.els) THEN [view |-> v.view, what |-> "elements", got |-> Len(v.els)]
      ELSE LET be == { i \in 1..Len(doc.els) : ~ElementIs(v.els[i], Expected(doc, i), AskNames(doc, i)) }
-              i  == CHOOSE x \in be : \A y \in be : x <= y
-          IN [view |-> v.view, what |-> "attributes", el |-> i, want |-> Expected(doc, i), got |-> v.els[i]]
+          IN IF be = {} THEN [view |-> v.view, what |-> "xpath", want |-> [i \in 1..Len(doc.els) |-> Expected(doc, i)],
+                              got |-> [i \in 1..Len(doc.els) |-> IF "xp" \in DOMAIN v.els[i] THEN v.els[i].xp ELSE [st |-> "missing"]]]
+             ELSE LET i == CHOOSE x \in be : \A y \in be : x <= y
+                  IN [view |-> v.view, what |-> "attributes", el |-> i, want |-> Expected(doc, i), got |-> v.els[i]]
 
 Verdict(e) ==
   IF ~CaseOk(e) THEN [verdict |-> "TOOL-BAD-CASE"]
